@@ -38,6 +38,8 @@ pub struct GenCfg {
     pub handles: bool,
     /// destructor panics (collection calls and arena drops)
     pub dfaults: bool,
+    /// report a faulted history only if its fault-free twin is clean (as C11 does)
+    pub twin: bool,
 }
 
 pub struct Gen {
